@@ -146,3 +146,18 @@ class Abs(object):
 
     def doc(self, grids):
         return [self.grid(g) for g in grids]
+
+
+def series(grids, meta):
+    """A multi-grid document is handed to dump() as a list, a tuple, an iterator or a generator: any iterable of
+    grids is a series of grids.  The form is a function of the plan, so that a replay makes the same choice."""
+    import json as _json
+    import zlib as _zlib
+    k = _zlib.crc32(_json.dumps(meta, sort_keys=True, default=str).encode()) % 4
+    if k == 1:
+        return tuple(grids)
+    if k == 2:
+        return iter(list(grids))
+    if k == 3:
+        return (g for g in list(grids))
+    return list(grids)
